@@ -5,7 +5,7 @@ CONSTANTS MaxSeg = 3
           MaxFork = 2
           Schemes = {"hash", "path"}
           Depth = 0
-          Trees <- GenTrees
+          Trees <- ThoroughTrees
 INVARIANTS TypeOK DataClosed CanonHasHeads CanonLinkedToHead CanonLinkedPending CanonEndsAtHeadPending HeadOrder HeadStateAvail LookupCompletePending LookupSoundPending CacheCoherentPending
 PROPERTIES EventsDescribeSwitchPending AddedLogsCanonical RemovedWereCanonical HeadEventIsHead
 VIEW View
